@@ -30,6 +30,7 @@ func isIfaceT(t int) bool { return t == tAny || t == tFoo || t == tBar }
 //
 //	Graph:    L (AddLambdaNode), P (AddPassthroughNode), GN (AddGraphNode), E (AddEdge), B (AddBranch), K (Compile)
 //	Chain:    CL (AppendLambda), CP (AppendPassthrough), CG (AppendGraph), CPar (AppendParallel), CBr (AppendBranch), K
+//	          CC / GC: Append<Component> / Add<Component>Node, Typ = kind (components_test.go; workload of later_test.go only)
 //	Workflow: WN (Add*Node / End() / existing handle + AddInput…; Typ "G" = AddGraphNode), WB (AddBranch), K
 type Op struct {
 	K string `json:"k"`
@@ -185,6 +186,8 @@ func (o Op) String() string {
 		b.WriteString(")")
 	case "K":
 		b.WriteString("K(" + o.Opt + ")")
+	case "CC", "GC":
+		b.WriteString(o.K + ":" + o.Typ + "(" + o.Key + ")")
 	default:
 		b.WriteString("?" + o.K)
 	}
